@@ -37,6 +37,14 @@ CFG = {
                         UserAlpha='{"ok", "missing", "wrong"}',
                         MiAlpha='{"ok", "missing", "wrongKey", "remoteKey", "garbled"}',
                         FpAlpha='{"ok"}'), (60, 6)),
+        # through a TURN relay (fake TURN server of the harness): the agent's only local candidate is the relay candidate;
+        # a packet arrives wrapped in a Data indication, as ChannelData on the channel bound for its source, or BARE on the
+        # TURN client's 5-tuple (from the server address / from a stranger), where it is dispatched with the agent's own
+        # relayed address as source
+        ("turn", dict(Socks='{"turn"}', Lites="{FALSE}",
+                      UserAlpha='{"ok", "missing", "wrong"}',
+                      MiAlpha='{"ok", "missing"}',
+                      FpAlpha='{"ok"}'), (40, 6)),
     ],
     "thorough": [
         ("udp-fine", dict(Socks='{"udp"}', Lites="{FALSE, TRUE}",
@@ -58,6 +66,10 @@ CFG = {
                              MiAlpha='{"ok", "missing", "wrongKey", "remoteKey", "emptyKey", "ufragKey", "garbled", '
                                      '"garbledBody", "truncated"}',
                              FpAlpha='{"ok", "none"}'), (500, 8)),
+        ("turn-fine", dict(Socks='{"turn"}', Lites="{FALSE}",
+                           UserAlpha='{"ok", "missing", "wrong", "swapped", "nocolon"}',
+                           MiAlpha='{"ok", "missing", "wrongKey", "remoteKey", "garbled"}',
+                           FpAlpha='{"ok", "none"}'), (500, 8)),
     ],
 }
 
